@@ -153,15 +153,19 @@ def footer (all rest : Bytes) (cnt : Nat) : Outcome :=
     else .done cnt
   | _ => .err cnt
 
-def body : Nat → Bytes → Bytes → Nat → Outcome
+/-- the `ParseRdb` loop over ANY item reader (the theorems need of it only that
+    it is sequential, consumes its opcode, and reports EOF for the byte 0xFF) -/
+def bodyWith (item : Rd Item) : Nat → Bytes → Bytes → Nat → Outcome
   | 0, _, _, _ => .fuelOut
   | fuel+1, all, xs, cnt =>
     match item xs with
     | .ok Item.eofOp rest => footer all rest cnt
-    | .ok Item.entry rest => body fuel all rest (cnt + 1)
-    | .ok Item.other rest => body fuel all rest cnt
+    | .ok Item.entry rest => bodyWith item fuel all rest (cnt + 1)
+    | .ok Item.other rest => bodyWith item fuel all rest cnt
     | .err => .err cnt
     | .unsup => .unsup
+
+def body : Nat → Bytes → Bytes → Nat → Outcome := bodyWith item
 
 def sREDIS : Bytes := [82, 69, 68, 73, 83]
 
@@ -180,11 +184,14 @@ def header (maxVer : Nat) : Rd Unit :=
       | some v => if v ≤ 0 ∨ v > maxVer then fail else ret ()
       | none => fail)
 
-/-- `ParseRdb` -/
-def parse (maxVer : Nat) (f : Bytes) : Outcome :=
+/-- `ParseRdb` over any item reader -/
+def parseWith (item : Rd Item) (maxVer : Nat) (f : Bytes) : Outcome :=
   match header maxVer f with
-  | .ok _ rest => body (rest.length + 1) f rest 0
+  | .ok _ rest => bodyWith item (rest.length + 1) f rest 0
   | .err => .err 0
   | .unsup => .unsup
+
+/-- `ParseRdb` with the modelled opcode grammar -/
+def parse (maxVer : Nat) (f : Bytes) : Outcome := parseWith item maxVer f
 
 end GunYu.RdbFrame
